@@ -16,11 +16,15 @@ def main(tier: str) -> int:
         for lang in ("c", "cpp", "py"):
             for ty in ("any", "path", "macro"):
                 conds.append(Cond(M, "strop_ok", 900, 120, dict(C09_LANG=lang, C09_TYPE=ty, C09_LEN="2")))
-        rep.bounds = dict(token_length="1..2", alphabet="12 class representatives: a A 1 _ space tab - e-acute i f d o", id_types="any, path, macro", languages="c, cpp, py")
+        for lang in ("c", "py"):
+            conds.append(Cond(M, "result_independent_of_earlier_language_objects", 900, 300, dict(C09_LANG=lang, C09_TYPE="any")))
+        rep.bounds = dict(token_length="1..2", alphabet="12 class representatives: a A 1 _ space tab - e-acute i f d o", id_types="any, path, macro", languages="c, cpp, py",
+                          process_history="a second language object with another reserved-word list created and used before / after (tokens over {a,_}, length <= 2)")
     else:
         for lang in ("c", "cpp", "py"):
             for ty in ("any", "path", "macro", "typedef", "function", "enum"):
                 conds.append(Cond(M, "strop_ok", 2400, 120, dict(C09_LANG=lang, C09_TYPE=ty, C09_LEN="2")))
+            conds.append(Cond(M, "result_independent_of_earlier_language_objects", 2400, 300, dict(C09_LANG=lang, C09_TYPE="any")))
             for ch in SIGMA:
                 conds.append(Cond(M, "strop_ok", 3000, 120, dict(C09_LANG=lang, C09_TYPE="any", C09_LEN="3", C09_FIRST=ch)))
         rep.bounds = dict(token_length="1..2 for six id types; 1..3 for type 'any' (split by first character)", alphabet="12 class representatives",
